@@ -691,6 +691,35 @@ def check_seed(ctx, R):
                         resets.append((f, n))
     R.ob('SEED-FROM-COMMITTED', ccon, 'no-reset', not resets, 'self.positions is re-initialised after being seeded',
          ctx.where(resets[0][0], resets[0][1].lineno) if resets else None)
+    # who may move a cursor once polling has begun: only the planning loop (OFFSET-ALGEBRA judges those stores). Any other
+    # item store into self.positions inside the poll loop - e.g. re-reading the committed offsets when partitions are added -
+    # moves cursors of partitions that may have ranges in flight back: those ranges are handed out again
+    try:
+        PLF, plan_loop, _recs = planning_iteration(ctx, cls)
+    except AnalysisError:
+        PLF, plan_loop = None, None
+    strays = []
+    for f in scope(cls):
+        for n in own_nodes(f.node):
+            tg = []
+            if isinstance(n, ast.Assign):
+                tg = n.targets
+            elif isinstance(n, ast.AugAssign):
+                tg = [n.target]
+            for t in tg:
+                for t_ in (t.elts if isinstance(t, (ast.Tuple, ast.List)) else [t]):
+                    if isinstance(t_, ast.Subscript) and self_field(t_) == 'positions':
+                        in_plan = plan_loop is not None and f is PLF and any(x is n for x in ast.walk(plan_loop))
+                        in_poll = f is PF and any(x is n for x in ast.walk(ploop))
+                        is_seed = seed is not None and n is seed[1]
+                        if in_plan or (is_seed and not in_poll):
+                            continue
+                        if in_poll or (f is not PF and f is not (seed[0] if seed else None) and f is not PLF):
+                            strays.append((f, n))
+    R.ob('SEED-FROM-COMMITTED', ccon, 'cursor-moved-only-by-planning', not strays,
+         'a cursor is written outside the planning loop after polling has begun (%s): a partition with ranges in flight is moved '
+         'back to its committed offset and the same offsets are handed out again' % (src(strays[0][1])[:70] if strays else ''),
+         ctx.where(strays[0][0], strays[0][1].lineno) if strays else None)
 
 
 def check_read_range(ctx, R):
